@@ -9,8 +9,11 @@ For an arbitrary node type `α` and `rdeps : α → Option (List α)` (`none` = 
   `Step` relation between the states before / after a visit;
 * `sortFrom_nodup`, `sortFrom_sound`, `sortFrom_complete`, `sortFrom_closed`: for EVERY graph;
 * `sortFrom_order_scc` (every graph: a reverse dependency comes later unless it is on a cycle with
-  the node), `sortFrom_order` / `sortFrom_order_mem` (ranked = acyclic graphs: always later);
+  the node), `sortFrom_order_acyclic` / `sortFrom_order` / `sortFrom_order_up` / `sortFrom_order_mem`
+  (acyclic = ranked graphs: always later; prefix formulation), `sortFrom_order_idx` (index formulation);
 * `sortFrom_terminates`, `visitG_fuel_mono`, `sortFrom_fuel_mono`.
+
+Core Lean only.
 -/
 namespace AmVerif.Lemmas.Topo
 open AmVerif.Model
@@ -328,6 +331,20 @@ theorem visitG_reach (rdeps : α → Option (List α)) :
 
 example : VisitReach exG ⟨[], []⟩ 1 ⟨[2, 1], [1, 2]⟩ := visitG_reach exG 3 _ _ _ rfl
 
+-- the invariant and the `Step` relation on the cyclic example (visit of `1` from the state in which `0` is gray)
+example : Step exG ⟨[0], []⟩ ⟨[2, 1, 0], [1, 2]⟩ ∧ (exG 1 ≠ none → 1 ∈ [2, 1, 0]) :=
+  visitOk_all exG 3 ⟨[0], []⟩ 1 _ rfl
+    ⟨by simp, by simp [exG], by simp, by intro pre a post h; simp at h, by simp⟩
+    (by intro g hg _; simp at hg; subst hg; exact exG_01)
+example : Step exG ⟨[], []⟩ ⟨[], []⟩ := Step.refl (Inv.empty exG)
+example : Step exG ⟨[], []⟩ ⟨[], []⟩ := (Step.refl (Inv.empty exG)).trans (Step.refl (Inv.empty exG))
+example : Ord exG [2] := ord_cons (by intro pre a post h; simp at h)
+  (by intro rs h b hb _; cases h; simp at hb; subst hb; exact Or.inr exG_12)
+example : Step exG ⟨[], []⟩ ⟨[], []⟩ ∧ ∀ r ∈ ([] : List Nat), exG r ≠ none → r ∈ ([] : List Nat) :=
+  chain_step (Chain.nil _) (Inv.empty exG) (by simp)
+example : ∀ x ∈ [2, 1], x ∈ ([] : List Nat) ∨ ∃ r ∈ [1], Reach exG r x :=
+  chain_reach (s0 := ⟨[], []⟩) (s := ⟨[2, 1], [1, 2]⟩) (Chain.cons (visitG_reach exG 3 _ _ _ rfl) (Chain.nil _))
+
 /-! ## The whole sort -/
 
 /-- **sortFrom_inv.** The result of the sort satisfies the invariant, has no gray node left
@@ -345,6 +362,9 @@ theorem sortFrom_inv {fuel : Nat} {changed : List α} {st : VSt α}
   exact ⟨hs.inv, hno, fun c hc' hg => hno c (hc c hc' hg)⟩
 
 example : ∃ st, sortFrom exG 4 [0, 7] = some st ∧ st.out = [0, 1, 2] := ⟨_, rfl, rfl⟩
+
+example : Chain (VisitReach exG) [0, 7] ⟨[], []⟩ ⟨[2, 1, 0], [0, 1, 2]⟩ :=
+  sortFrom_chain exG (visitG_reach exG) (fuel := 4) rfl
 
 /-- **sortFrom_nodup.** No node is listed twice — on every graph, cyclic or not. -/
 theorem sortFrom_nodup {fuel : Nat} {changed : List α} {st : VSt α}
@@ -376,6 +396,9 @@ theorem sortFrom_closed {fuel : Nat} {changed : List α} {st : VSt α}
   have ⟨hi, hno, _⟩ := sortFrom_inv h
   exact hno b (hi.cl a ha rs hrs b hb hbg)
 
+example : 1 ∈ [2, 1] := sortFrom_closed (rdeps := exG) (fuel := 4) (changed := [2]) (st := ⟨[1, 2], [2, 1]⟩) rfl
+  2 (by simp) [1] rfl 1 (by simp) (by simp [exG])
+
 /-- **sortFrom_complete.** Every node of the graph that is reachable from a changed node is listed
 (the path's inner nodes are in the graph by the definition of `Reach`). -/
 theorem sortFrom_complete {fuel : Nat} {changed : List α} {st : VSt α}
@@ -396,6 +419,8 @@ except those from which it is itself reachable (they lie on a cycle with it). -/
 theorem sortFrom_order_scc {fuel : Nat} {changed : List α} {st : VSt α}
     (h : sortFrom rdeps fuel changed = some st) : Ord rdeps st.out :=
   (sortFrom_inv h).1.ord
+
+example : Ord exG [1, 2] := sortFrom_order_scc (fuel := 4) (changed := [1]) (st := ⟨[2, 1], [1, 2]⟩) rfl
 
 omit [DecidableEq α] in
 theorem rank_reach {rank : α → Nat} (hr : ∀ a rs b, rdeps a = some rs → b ∈ rs → rank b < rank a)
@@ -469,6 +494,12 @@ theorem exDag_rank : ∀ a rs b, exDag a = some rs → b ∈ rs → exRank b < e
   | 1, h => cases h; simp at hb; subst hb; simp
   | 2, h => cases h; simp at hb; subst hb; simp
 
+example : exRank 2 ≤ exRank 0 :=
+  rank_reach exDag_rank (Reach.edge (rdeps := exDag) (rs := [1, 2]) rfl (by simp))
+example : (0 : Nat) ≤ 2 := rank_up_reach (rdeps := exDag) (rank := id)
+  (fun a rs b h hb => by have := exDag_rank a rs b h hb; simp only [exRank, id] at *; omega)
+  (Reach.edge (rs := [1, 2]) rfl (by simp))
+
 -- `2` is changed first, still `0` (on which `1`, `2` depend) and `1` come before it
 example : ∃ st, sortFrom exDag 4 [2, 1, 0] = some st ∧ st.out = [0, 1, 2] := ⟨_, rfl, rfl⟩
 example : ∀ pre a post, [0, 1, 2] = pre ++ a :: post → ∀ rs, exDag a = some rs → ∀ b ∈ rs, exDag b ≠ none →
@@ -481,6 +512,44 @@ example : ∀ pre a post, [0, 1, 2] = pre ++ a :: post → ∀ rs, exDag a = som
       have := exDag_rank a rs b h hb; have := rank_reach exDag_rank hre; omega) (fuel := 4) (changed := [2, 1, 0]) rfl
 example : ∃ pre post, [0, 1, 2] = pre ++ 1 :: post ∧ 1 ∉ pre ∧ 2 ∈ post :=
   sortFrom_order_mem exDag_rank (fuel := 4) (changed := [2, 1, 0]) rfl 1 (by simp) [2] rfl 2 (by simp) (by simp [exDag])
+/-- in a duplicate-free list, what comes after `a` has a larger index -/
+theorem idxOf_lt_of_split {l pre post : List α} {a b : α} (hl : l = pre ++ a :: post)
+    (hnd : l.Nodup) (hb : b ∈ post) : l.idxOf a < l.idxOf b := by
+  subst hl
+  induction pre with
+  | nil =>
+    have hba : ¬ a = b := by
+      intro e; subst e
+      simp at hnd; exact hnd.1 hb
+    have : (a == b) = false := by simpa using hba
+    simp [List.idxOf_cons, this]
+  | cons p pre ih =>
+    have ⟨h1, h2⟩ := List.nodup_cons.mp hnd
+    have hpa : (p == a) = false := by
+      have : ¬ p = a := by intro e; subst e; exact h1 (by simp)
+      simpa using this
+    have hpb : (p == b) = false := by
+      have : ¬ p = b := by intro e; subst e; exact h1 (by simp [hb])
+      simpa using this
+    have := ih h2
+    simp only [List.cons_append, List.idxOf_cons, hpa, hpb, cond_false]
+    omega
+
+example : [5, 3, 8].idxOf 3 < [5, 3, 8].idxOf 8 := idxOf_lt_of_split (pre := [5]) (post := [8]) rfl (by decide) (by simp)
+
+/-- **sortFrom_order_idx.** The index formulation: on a ranked (acyclic) graph every listed node has
+a smaller index in `out` than each of its reverse dependencies (which are listed too). -/
+theorem sortFrom_order_idx {rank : α → Nat} (hr : ∀ a rs b, rdeps a = some rs → b ∈ rs → rank b < rank a)
+    {fuel : Nat} {changed : List α} {st : VSt α} (h : sortFrom rdeps fuel changed = some st) :
+    ∀ a ∈ st.out, ∀ rs, rdeps a = some rs → ∀ b ∈ rs, rdeps b ≠ none →
+      b ∈ st.out ∧ st.out.idxOf a < st.out.idxOf b := by
+  intro a ha rs hrs b hb hbg
+  obtain ⟨pre, post, hout, _, hbp⟩ := sortFrom_order_mem hr h a ha rs hrs b hb hbg
+  exact ⟨by rw [hout]; simp [hbp], idxOf_lt_of_split hout (sortFrom_nodup h) hbp⟩
+
+example : 2 ∈ [0, 1, 2] ∧ [0, 1, 2].idxOf 1 < [0, 1, 2].idxOf 2 :=
+  sortFrom_order_idx exDag_rank (fuel := 4) (changed := [2, 1, 0]) rfl 1 (by simp) [2] rfl 2 (by simp) (by simp [exDag])
+
 -- on the cyclic example the strict order is impossible (`1` and `2` are each other's reverse
 -- dependencies) and `sortFrom_order_scc` is what holds
 example : ∃ st, sortFrom exG 4 [1] = some st ∧ st.out = [1, 2] ∧ Reach exG 1 2 ∧ Reach exG 2 1 :=
@@ -521,6 +590,9 @@ theorem unv_cons_lt (nodes : List α) {v : List α} {k : α} (hk : k ∈ nodes) 
 
 example : unv [0, 1, 2] [1] = 2 := by decide
 
+example : unv [0, 1, 2] [1, 0] ≤ unv [0, 1, 2] [1] := unv_mono _ (by simp)
+example : unv [0, 1, 2] [2, 1] < unv [0, 1, 2] [1] := unv_cons_lt _ (by simp) (by simp)
+
 theorem visitG_vis_mono {f : Nat} {st st' : VSt α} {k : α} (h : visitG rdeps f st k = some st') :
     ∀ x ∈ st.vis, x ∈ st'.vis := by
   revert f st k st'
@@ -537,6 +609,9 @@ theorem visitG_vis_mono {f : Nat} {st st' : VSt α} {k : α} (h : visitG rdeps f
   · intro st k _ _ x hx; exact hx
   · intro st k rs s _ _ hch x hx
     exact chain _ _ _ hch x (List.mem_cons_of_mem _ hx)
+
+example : ∀ x ∈ [0], x ∈ [2, 1, 0] := visitG_vis_mono (rdeps := exG) (f := 3) (st := ⟨[0], []⟩) (k := 1)
+  (st' := ⟨[2, 1, 0], [1, 2]⟩) rfl
 
 /-- The visit returns on EVERY finite graph (`nodes` lists the graph's nodes), cyclic or not, with
 fuel above the number of still-unvisited nodes. -/
@@ -570,6 +645,14 @@ theorem visitG_terminates (nodes : List α) (hfin : ∀ a rs, rdeps a = some rs 
             exact ⟨s, by simp [List.foldlM_cons, h1, hs]⟩
         have ⟨s, hs⟩ := fold rs ⟨k :: st.vis, st.out⟩ h0
         exact ⟨_, by simp only []; rw [hs]⟩
+
+-- one node is already visited: fuel 3 is enough for the remaining two
+example : ∃ st', visitG exG 3 ⟨[0], []⟩ 1 = some st' :=
+  visitG_terminates [0, 1, 2] (fun a rs h => by
+    match a, h with
+    | 0, _ => simp
+    | 1, _ => simp
+    | 2, _ => simp) 3 ⟨[0], []⟩ 1 (by decide)
 
 /-- **sortFrom_terminates.** On a finite graph, cyclic or not, fuel `#nodes + 1` suffices. -/
 theorem sortFrom_terminates (nodes : List α) (hfin : ∀ a rs, rdeps a = some rs → a ∈ nodes)
@@ -635,6 +718,11 @@ theorem visitG_fuel_mono : ∀ f st k st', visitG rdeps f st k = some st' →
           simp [hfo] at h
           rw [foldlM_some_congr (fun s r s' hv => ih s r s' hv f'' (by omega)) rs _ s hfo]
           simpa using h
+
+example : visitG exG 7 ⟨[0], []⟩ 1 = some ⟨[2, 1, 0], [1, 2]⟩ := visitG_fuel_mono 3 _ _ _ rfl 7 (by simp)
+example : [1, 7].foldlM (fun s r => visitG exG 7 s r) ⟨[0], []⟩ = some ⟨[2, 1, 0], [1, 2]⟩ :=
+  foldlM_some_congr (F := fun s r => visitG exG 3 s r) (fun s r s' h => visitG_fuel_mono 3 s r s' h 7 (by simp))
+    _ _ _ rfl
 
 /-- **sortFrom_fuel_mono.** -/
 theorem sortFrom_fuel_mono {fuel fuel' : Nat} {changed : List α} {st : VSt α}
